@@ -672,8 +672,10 @@ class Interp:
                 self.apply_seeds()
             else:
                 self.trace.append(('pcspkr', 'beep'))
-        elif k in ('label', 'raw', 'data'):
+        elif k in ('label', 'lineno', 'raw', 'data'):
             pass
+        elif k == 'line':
+            self.block(s[1])
         else:
             raise ValueError('statement %s has no reference semantics' % k)
 
@@ -830,7 +832,7 @@ class Interp:
         main = self.prog.main
         labels = {}
         for i, s in enumerate(main):
-            if s[0] == 'label':
+            if s[0] in ('label', 'lineno'):
                 labels[s[1]] = i
         self.frames = [{'name': '_main', 'vars': {}, 'consts': {},
                         'static': False}]
